@@ -164,6 +164,9 @@ func init() {
 			pre := 0
 			if rapid.IntRange(0, 2).Draw(t, "placed") == 0 {
 				pre = rapid.IntRange(1, 12).Draw(t, "preLen")
+				if rapid.IntRange(0, 9).Draw(t, "hugepre") == 4 {
+					pre = rapid.SampledFrom([]int{65533, 65534, 65536, 70000, 140000}).Draw(t, "hugeLen")
+				}
 			}
 			return &C03Case{G: g, In: GenInput(t, g, o), MemoRules: memo, Sentence: rapid.Bool().Draw(t, "sentence"), PreLen: pre}
 		},
